@@ -242,3 +242,37 @@ def c06(ck):
     cases = text_cases(ck, ["escapes", "strings", "tokens", "numbers"] + ([] if ck.quick else ["brackets", "macros", "tokens2"]), 4)
     ck.replay(cases, args=["-prop", "C06"])
     ck.exhaustive = True
+
+
+@check("C04")
+def c04(ck):
+    import os, json, random
+    ck.rule = ("forms: every special-form head (19 heads incl. catch/finally/unquote used as heads) x every operand tuple "
+               "of length 0..MaxAr over a pool of operand kinds (misplaced &, non-symbol parameters, clauses of every "
+               "arity, operand-less unquote...); nested: 24 nesting templates x all operand triples; builtins: every "
+               "function bound in the loaded environment x argument tuples over 14 value kinds; each AST evaluated "
+               "bare and inside (try AST (catch e :caught)); a sample also as the body of a future in a child process; "
+               "violation = Go panic / hang / process death / error escaping the try; Def.tla classifies each AST")
+    q = ck.quick
+    total = []
+    for mode, consts in (("forms", {"MaxAr": 2 if q else 3, "PoolN": 0 if q else 24}),
+                         ("nested", {"MaxAr": 3, "PoolN": 10 if q else 16})):
+        consts = dict(consts, Mode='"%s"' % mode)
+        r = gen_and_replay_keep(ck, "GenC04", consts, timeout=1500)
+        total += [c for c, _ in r]
+    # builtins found in the environment at run time
+    names = ck.harness(["list-builtins"])
+    bpath = os.path.join(ck.scratch, "builtins.ndjson")
+    write_ndjson(bpath, names)
+    consts = {"Mode": '"builtins"', "MaxAr": 2 if q else 3, "PoolN": 0}
+    r = ck.tlc("GenC04", cfg(constants=consts), timeout=1500, env={"VERIF_BUILTINS": bpath})
+    ck.tlc_ok(r, "GenC04 builtins")
+    ck.replay(r.cases)
+    ck.extra["builtins_in_environment"] = len(names)
+    # futures: malformed bodies must not kill the process (child process per batch)
+    rnd = random.Random(ck.seed)
+    bad = [c for c in total if c["allow"]["k"] in ("unspec", "err")]
+    rnd.shuffle(bad)
+    sample = [dict(c, kind="astfuture", id="fut:" + c["id"]) for c in bad[:150 if q else 1500]]
+    ck.replay_crashy(sample)
+    ck.exhaustive = True
